@@ -18,6 +18,8 @@
  *            data_status data_len data_hash)... final_status flags filter_codes format)
  *   flags bit0: read_data returned more than asked; bit1: an entry was produced after EOF/FATAL;
  *         bit2: status outside the documented set; bit3: read_data_block offsets not increasing
+ *         bit4: memory obtained on behalf of the handle is still allocated after archive_read_free (LSan);
+ *         bit5: archive_read_free did not return ARCHIVE_OK
  */
 #include <archive.h>
 #include <archive_entry.h>
@@ -25,6 +27,9 @@
 #include <unistd.h>
 #include <sys/wait.h>
 #include <errno.h>
+#if defined(__SANITIZE_ADDRESS__)
+#include <sanitizer/lsan_interface.h>
+#endif
 #include "val.h"
 
 struct src {
@@ -127,8 +132,12 @@ static void run_case(val *c)
 	}
 	archive_read_support_filter_all(a);
 	archive_read_support_format_all(a);
-	archive_read_support_format_raw(a);
-	archive_read_support_format_empty(a);
+	if (!v_ll(v_at(c, 7))) {
+		/* the raw "format" accepts any byte string as one entry named "data": checks about
+		 * well-formed archives cut short switch it off (8th case element non-zero) */
+		archive_read_support_format_raw(a);
+		archive_read_support_format_empty(a);
+	}
 	snprintf(path, sizeof(path), "%s/readall-%d.bin", tmpdir(), (int)getpid());
 	switch (kind) {
 	case 0:
@@ -273,16 +282,25 @@ static void run_case(val *c)
 		}
 		o_close();
 	}
-	o_int(r);
-	o_int(flags);
-	o_open();
-	for (i = 0; i < archive_filter_count(a); i++) o_int(archive_filter_code(a, i));
-	o_close();
-	o_int(archive_format(a));
+	{
+		int fcodes[32], nf = archive_filter_count(a), fmt = archive_format(a);
+		if (nf > 32) nf = 32;
+		for (i = 0; i < nf; i++) fcodes[i] = archive_filter_code(a, i);
+		/* after the handle is freed nothing obtained on its behalf may remain */
+		if (archive_read_free(a) != ARCHIVE_OK) flags |= 32;
+		free(s.blk);
+#if defined(__SANITIZE_ADDRESS__)
+		if (__lsan_do_recoverable_leak_check()) flags |= 16;
+#endif
+		o_int(r);
+		o_int(flags);
+		o_open();
+		for (i = 0; i < nf; i++) o_int(fcodes[i]);
+		o_close();
+		o_int(fmt);
+	}
 	o_close();
 	o_endline();
-	archive_read_free(a);
-	free(s.blk);
 	if (fd >= 0) close(fd);
 	if (fp) fclose(fp);
 	if (child > 0) { int st; waitpid(child, &st, 0); }
